@@ -388,7 +388,7 @@ func genC04(seed uint64, run int, tier string) *Case {
 // (values, positions, tape) still come from the seed.
 
 var c04Shapes = []func(r rng, tier string) *Case{
-	shapeWhereSwitch, shapeTickBetweenNow, shapeTZLiteral, shapePatchShared, shapeStallCompile, shapeClockExact, shapeOrder, shapeTypedCallbacks, shapePatterns,
+	shapeWhereSwitch, shapeTickBetweenNow, shapeTZLiteral, shapePatchShared, shapeStallCompile, shapeClockExact, shapeOrder, shapeTypedCallbacks, shapePatterns, shapeTypeHistory,
 }
 
 func baseShape(r rng, tier, name string, types ...string) *genCtx {
@@ -608,6 +608,57 @@ func shapePatterns(r rng, tier string) *Case {
 		c.Clients = append(c.Clients, ops)
 	}
 	return c
+}
+
+// shapeTypeHistory: what a Compile resolves (type specifiers, function names) must not depend
+// on which other sources were compiled earlier in the process. Unqualified type names are
+// compiled and evaluated while qualified variants of the same names (System.X / FHIR.X) are
+// compiled in the history and mid-flight; the end-of-run recompile must behave like the first.
+func shapeTypeHistory(r rng, tier string) *Case {
+	g := baseShape(r, tier, "type-history", "Observation", "Patient")
+	c := g.c
+	c.Knobs.SwitchThr = 77
+	c.Knobs.MidCompile = 1 + r.n(3)
+	names := []string{"Quantity", "string", "String", "boolean", "Boolean", "integer", "Integer", "decimal", "Decimal", "dateTime", "DateTime", "date", "Date", "time", "Time", "code", "Coding", "Period"}
+	r.Shuffle(len(names), func(i, j int) { names[i], names[j] = names[j], names[i] })
+	for _, n := range names[:6] {
+		root := pick(r, []string{"Observation", "Patient"})
+		switch r.n(4) {
+		case 0:
+			c.Programs = append(c.Programs, ProgSpec{Src: fmt.Sprintf("%s.descendants().where($this is %s).count()", root, n)})
+		case 1:
+			c.Programs = append(c.Programs, ProgSpec{Src: fmt.Sprintf("%s.descendants().ofType(%s).count()", root, n)})
+		case 2:
+			c.Programs = append(c.Programs, ProgSpec{Src: fmt.Sprintf("%s.children().select($this as %s).count()", root, n)})
+		default:
+			c.Programs = append(c.Programs, ProgSpec{Src: fmt.Sprintf("(Observation.value is %s) or (1 'mg' is %s) or ('a' is %s) or (true is %s)", n, n, n, n)})
+		}
+	}
+	c.Programs = append(c.Programs, ProgSpec{Src: "(Observation.value is Quantity) or (1 'mg' is Quantity)"}, ProgSpec{Src: "Observation.descendants().ofType(Quantity).count() + (1 'mg').ofType(Quantity).count()"})
+	qual := func() ProgSpec {
+		n := pick(r, append([]string{"Quantity"}, names[:6]...))
+		ns := pick(r, []string{"System", "FHIR"})
+		return ProgSpec{Src: pick(r, []string{"1 'mg' is %s.%s", "'a' is %s.%s", "Observation.value is %s.%s", "{} as %s.%s", "Patient.active.ofType(%s.%s)"}), Patch: r.p(0.15)}.withArgs(ns, n)
+	}
+	for i, n := 0, r.n(4); i < n; i++ {
+		c.History = append(c.History, HistEvent{Prog: qual()})
+	}
+	for i := 0; i < 4; i++ {
+		c.MidProgs = append(c.MidProgs, qual())
+	}
+	for ci := 0; ci < 2+r.n(2); ci++ {
+		var ops []Op
+		for oi := 0; oi < 4; oi++ {
+			ops = append(ops, Op{Kind: "eval", Prog: r.n(len(c.Programs)), Res: []int{0, 1}})
+		}
+		c.Clients = append(c.Clients, ops)
+	}
+	return c
+}
+
+func (p ProgSpec) withArgs(a ...any) ProgSpec {
+	p.Src = fmt.Sprintf(p.Src, a...)
+	return p
 }
 
 func shapeClockExact(r rng, tier string) *Case {
